@@ -126,3 +126,61 @@ func VC17Stream3() { vStream(3) }
 
 //verif: prop=C17 tier=thorough bounds="stream of 4 symbolic bytes"
 func VC17Stream4() { vStream(4) }
+
+// Very long lines: sizes around the buffer sizes the standard library uses (4 KiB bufio default, 32 KiB io.Copy
+// chunks, the 64 KiB bufio.MaxScanTokenSize) and beyond. The content is concrete except for one symbolic
+// byte that may or may not be a newline; the lengths are what is explored.
+//
+//verif: prop=C17 bounds="one line of 2..4 chunks of {4096, 32768, 65536} bytes each (the same scratch buffer refilled, as io.Copy does), one symbolic byte in the middle chunk (a newline there splits the line), ended by a newline in the last chunk, by Sync or by Close: the messages are exactly the newline-delimited pieces, none cut anywhere else, whatever their length"
+func VC17LongLines() {
+	vrt.Budget(40000000) // up to 256 KiB are filled, written and compared byte by byte
+	var msgs []string
+	var lvls []zapcore.Level
+	w := &Writer{Log: zap.New(vMsgCore{min: zapcore.InfoLevel, msgs: &msgs, lvls: &lvls}), Level: zapcore.InfoLevel}
+	size := []int{4096, 32768, 65536}[vrt.Choice("chunk", 3)]
+	chunks := vrt.IntRange("chunks", 2, 4)
+	end := vrt.Choice("end", 3) // 0 newline, 1 Sync, 2 Close
+	mid := vrt.Byte("mid")
+	scratch := make([]byte, size)
+	var want []string
+	var cur []byte
+	for c := 0; c < chunks; c++ {
+		for i := range scratch {
+			scratch[i] = byte('a' + c)
+		}
+		if c == 1 {
+			scratch[size/2] = mid
+		}
+		n := size
+		if c == chunks-1 && end == 0 {
+			scratch[size-1] = '\n'
+		}
+		k, err := w.Write(scratch[:n])
+		vrt.Assert("write-accepts-all", k == n && err == nil)
+		for _, b := range scratch[:n] {
+			if b == '\n' {
+				want = append(want, string(cur))
+				cur = nil
+			} else {
+				cur = append(cur, b)
+			}
+		}
+	}
+	switch end {
+	case 1:
+		vrt.Assert("sync-nil", w.Sync() == nil)
+	case 2:
+		vrt.Assert("close-nil", w.Close() == nil)
+	}
+	if end != 0 && len(cur) > 0 {
+		want = append(want, string(cur))
+	}
+	vrt.Observe("messages", len(msgs))
+	vrt.Assert("one-message-per-line", len(msgs) == len(want))
+	if len(msgs) == len(want) {
+		for i := range want {
+			vrt.Assert("message-is-the-whole-line", msgs[i] == want[i])
+		}
+	}
+	vrt.Cover("done")
+}
